@@ -279,23 +279,21 @@ func verif14BitLength(b []byte) uint64 {
 }
 
 // VerifHandshakeAccept: handshake with symbolic identifiers and symbolic
-// bitfield bytes with any announced bit length (except 0); also one remote
+// bitfield bytes with any announced bit length (including 0); also one remote
 // bitfield entry. Accept returns an error or a pending conn whose bitfields
 // are no longer than the bytes that carried them.
 func VerifHandshakeAccept() {
-	verif.Note("bitfields announcing 0 bits are cut: encoding/binary.Read falls back to reflection for an empty slice")
 	n := []int{0, 8, 16, 17, 7, 15, 24}[verif.Choice("bitfield_bytes", verif.Bound("bitfield_len_classes", 4, 7))]
 	bb := verif.Bytes("bitfield", n)
-	verif.Assume(verif.Or(n < 8, verif14BitLength(bb) >= 1)) // any announced bit length except 0
 	var remote map[string][]byte
 	if verif.Bool("has_remote") {
 		rb := verif.Bytes("remote_bitfield", 16)
-		verif.Assume(verif14BitLength(rb) >= 1)
 		remote = map[string][]byte{verif14Hex40: rb}
 	}
 	msg := verif14Handshake(bb, remote)
 	sock := &verif14Sock{in: verif14Stage(msg, nil)}
 	h := verif14Handshaker()
+	verif.Cover("zero-bit-bitfield", n >= 8 && verif14BitLength(bb) == 0)
 	verif14Guard(func() {
 		pc, err := h.Accept(sock)
 		if err != nil {
